@@ -74,10 +74,11 @@ class Workload(object):
             if kind == "simple":
                 return SimpleJSONRPCServer(addr, logRequests=False, address_family=fam)
             if pool_size is not None:
+                # user pools with and without permanent workers (min_threads 1 for odd sizes, 0 for even ones)
                 if pool_timeout is not None:
-                    self.pool = ThreadPool(pool_size, 0, timeout=pool_timeout, logname="c12-pool")
+                    self.pool = ThreadPool(pool_size, pool_size % 2, timeout=pool_timeout, logname="c12-pool")
                 else:
-                    self.pool = ThreadPool(pool_size, 0, logname="c12-pool")
+                    self.pool = ThreadPool(pool_size, pool_size % 2, logname="c12-pool")
                 self.pool.start()
             return PooledJSONRPCServer(addr, logRequests=False, address_family=fam, thread_pool=self.pool)
 
